@@ -55,7 +55,7 @@ def chargeText (c : Int) : List Char :=
 def atomEnvX (omitCharges : Bool) (serial : Nat) (ax : AtomX) : Env := fun n =>
   match n with
   | .x | .y | .z => if ax.hasPos then atomEnv serial ax.atom n else .nan
-  | .charge => if ax.charge ≠ 0 ∧ omitCharges = false then .str (chargeText ax.charge) else .str []
+  | .charge => .str (if omitCharges then [] else if ax.charge = 0 then [] else chargeText ax.charge)
   | .vx => .fix ((ax.vel.getD (0, 0, 0)).1)
   | .vy => .fix ((ax.vel.getD (0, 0, 0)).2.1)
   | .vz => .fix ((ax.vel.getD (0, 0, 0)).2.2)
@@ -203,11 +203,18 @@ def groLoopX (exclude : List (List Char)) (ignh : Bool) (fmt : GroFormat) (numAt
       | .error e => .error e
       | .ok (r, last) => .ok (⟨a, groVelOf fmt l⟩ :: r, last)
 
-/-- `np.array(line.strip().split(), dtype=float)` -/
-def parseBox (line : List Char) : Except Err (List Dec) :=
-  (splitWs line).mapM fun t => match parseDec t with
-    | some v => .ok v
+def parseToks : List (List Char) → Except Err (List Dec)
+  | [] => .ok []
+  | t :: ts =>
+    match parseDec t with
     | none => .error .valueerror
+    | some v =>
+      match parseToks ts with
+      | .error e => .error e
+      | .ok vs => .ok (v :: vs)
+
+/-- `np.array(line.strip().split(), dtype=float)` -/
+def parseBox (line : List Char) : Except Err (List Dec) := parseToks (splitWs line)
 
 /-- `read_gro`: atoms (with velocities when the first atom line has six points) and box -/
 def readGroX (G : GroLayout) (exclude : List (List Char)) (ignh : Bool) (lines : List (List Char)) :
